@@ -114,7 +114,19 @@ def witness_cases():
         {"op": "hbatch", "ds": "a", "ents": [sc.with_id("e1", R9), sc.with_id("e2", A)]},
         {"op": "hbatch", "ds": "a", "ents": [sc.with_id("e1", R9), sc.with_id("e2", B)], "ctx": "http://w/"},
         {"op": "hbatch", "ds": "a", "ents": [sc.with_id("e1", R9), sc.with_id("e2", B)]}] + fin}
-    return races + [http, proxy, hrefused, twoctx] + [
+    # a dataset that was read (forward, reverse, latest-only, through HTTP and the Go API), deleted and created again under the
+    # same name: every reader of the new incarnation sees the new incarnation's history only (`pre` operations ran on the old one)
+    pre = lambda o: dict(o, pre=True)
+    allreads = [{"op": "hchanges", "ds": "a", "reverse": True, "limit": 0}, {"op": "hchanges", "ds": "a", "since": 0, "limit": 0},
+                {"op": "hchanges", "ds": "a", "since": 0, "limit": 0, "latest": True}, {"op": "changes_rev", "ds": "a", "since": 0, "limit": 0},
+                {"op": "jschanges", "ds": "a", "since": 0, "limit": 0}, {"op": "hentities", "ds": "a", "limits": [0]}]
+    recreated = {"datasets": ["a", "b"], "ops": [pre({"op": "hbatch", "ds": "a", "ents": [sc.with_id("e1", A), sc.with_id("e2", B)]}),
+                                            pre({"op": "hbatch", "ds": "a", "ents": [sc.with_id("e1", B)]})]
+                 + [pre(o) for o in allreads] + [{"op": "recreate", "ds": "a"}] + allreads
+                 + [{"op": "hbatch", "ds": "a", "ents": [sc.with_id("e3", C), sc.with_id("e1", A)]},
+                    {"op": "hbatch", "ds": "b", "ents": [sc.with_id("e1", B)]},
+                    {"op": "hbatch", "ds": "a", "ents": [sc.with_id("e3", B)]}] + allreads + fin}
+    return races + [http, proxy, hrefused, twoctx, recreated] + [
         # F02a: identical element repeated inside one batch (new id)
         {"datasets": ["a"], "ops": [{"op": "batch", "ds": "a", "ents": [sc.with_id("e1", A), sc.with_id("e1", A)]}] + fin},
         # F02a: existing id
